@@ -9,10 +9,13 @@ KNOWN_8 = (23, 89, 236, 486)
 
 
 def _dedupe(graphs):
+    import warnings
     buckets = {}
     out = []
     for g in graphs:
-        h = nx.weisfeiler_lehman_graph_hash(g, iterations=3)
+        with warnings.catch_warnings():
+            warnings.simplefilter('ignore')
+            h = nx.weisfeiler_lehman_graph_hash(g, iterations=3)
         b = buckets.setdefault(h, [])
         if any(nx.is_isomorphic(g, x) for x in b):
             continue
